@@ -46,6 +46,20 @@ theorem C08_required_struct_partial (ts : List Tree) (hneed : Trees.need ts + 2 
       (e = .encode ∨ e = .odx ∨ e = .unmodelled) :=
   required_struct_omission ts hneed hd kvs trig hreq
 
+/-- **C08, CODED-CONST parameters are not required (struct tier, top level of the supplied dictionary).** If strict
+    `encode` accepts a dictionary, it accepts — with the very same PDU and warning count — every dictionary that agrees
+    with it on the VALUE parameters (leaves and nested structures) and either omits a constant or repeats what the first
+    one said about it. Together with `C08_required_struct_partial`: on the tier the required parameters are exactly the
+    VALUE parameters. -/
+theorem C08_const_not_required_partial (ts : List Tree) (hneed : Trees.need ts + 2 ≤ modelFuel) (hd : Trees.descOk ts)
+    (kvs kvs2 : List (String × PVal)) (trig : Option Bytes) (r : Bytes × Nat)
+    (henc : encodeMessage none (Trees.toParams ts) (.dict kvs) trig true = .ok r)
+    (hknown : kvs2.any (fun kv => !((Trees.toParams ts).any fun p => p.name == kv.1)) = false)
+    (hval : ∀ t ∈ ts, t.isConst = false → lookup t.name kvs2 = lookup t.name kvs)
+    (hconst : ∀ t ∈ ts, t.isConst = true → lookupV t.name kvs2 = none ∨ lookupV t.name kvs2 = lookupV t.name kvs) :
+    encodeMessage none (Trees.toParams ts) (.dict kvs2) trig true = .ok r :=
+  const_not_required ts hneed hd kvs kvs2 trig r henc hknown hval hconst
+
 /-! ## the open finding violates the side condition — and only the side condition -/
 
 def c08u8 (n : String) (bp : Option Nat) : Tree := .int ⟨n, bp, none, none, true, 8, .uint32⟩ (.int 0)
@@ -116,5 +130,23 @@ example : Trees.reqSupplied c08Desc
     [("s", .dict [("a", .atom (.int 0)), ("inner", .dict [("z", .atom (.int 0))]), ("b", .atom (.int 0)), ("c", .atom (.int 0))]),
      ("y", .atom (.int 0))] = false ∧
     Trees.reqSupplied c08Desc [("y", .atom (.int 0))] = false := by decide +kernel
+
+/-- `C08_const_not_required_partial`: the service id supplied / omitted -/
+def c08Vals (withSid : Bool) : List (String × PVal) :=
+  (if withSid then [("sid", PVal.atom (.int 0x2e))] else []) ++
+  [("s", .dict [("a", .atom (.int (-9))), ("inner", .dict [("x", .atom (.int (-2))), ("z", .atom (.int 0xf))]),
+                ("b", .atom (.int 0xbeef)), ("c", .atom (.int 0x11))]), ("y", .atom (.int (-128)))]
+example : (encodeMessage none (Trees.toParams c08Desc) (.dict (c08Vals true)) none true).toOption
+    = some ([0x2e, 0x80, 0x64, 0x11, 0xfe, 0xff, 0xca, 0xf0, 0xbe, 0xef], 0) := by decide +kernel
+example : (c08Vals false).any (fun kv => !((Trees.toParams c08Desc).any fun p => p.name == kv.1)) = false := by decide
+example : ∀ t ∈ c08Desc, t.isConst = false → lookup t.name (c08Vals false) = lookup t.name (c08Vals true) := by
+  intro t ht
+  simp only [c08Desc, List.mem_cons, List.mem_nil_iff, or_false] at ht
+  rcases ht with rfl | rfl | rfl <;> simp [Tree.isConst, Tree.name, c08Vals, lookup]
+example : ∀ t ∈ c08Desc, t.isConst = true →
+    lookupV t.name (c08Vals false) = none ∨ lookupV t.name (c08Vals false) = lookupV t.name (c08Vals true) := by
+  intro t ht
+  simp only [c08Desc, List.mem_cons, List.mem_nil_iff, or_false] at ht
+  rcases ht with rfl | rfl | rfl <;> simp [Tree.isConst, Tree.name, c08Vals, lookup, lookupV]
 
 end OdxVerif.Codec
